@@ -13,12 +13,12 @@ EXTENDS MemcContract, Json, IOUtils
 Rec == ndJsonDeserialize(IOEnv.TRACE)
 N   == Len(Rec)
 
-VARIABLES l, cs, dead, viol, cov, hist, noted, ord
-vars == <<l, cs, dead, viol, cov, hist, noted, ord>>
+VARIABLES l, cs, dead, viol, cov, hist, noted, ord, pair
+vars == <<l, cs, dead, viol, cov, hist, noted, ord, pair>>
 
 Empty == InitState({}, "none", 0, 0, FALSE)
 
-Init == l = 1 /\ cs = {Empty} /\ dead = FALSE /\ viol = <<>> /\ cov = <<>> /\ hist = 0 /\ noted = <<>> /\ ord = <<0, 0>>
+Init == l = 1 /\ cs = {Empty} /\ dead = FALSE /\ viol = <<>> /\ cov = <<>> /\ hist = 0 /\ noted = <<>> /\ ord = <<0, 0>> /\ pair = <<>>
 
 Count(c, rule) == IF \E i \in 1..Len(c) : c[i][1] = rule
                   THEN [i \in 1..Len(c) |-> IF c[i][1] = rule THEN <<rule, c[i][2] + 1>> ELSE c[i]]
@@ -47,10 +47,18 @@ Step ==
     /\ l <= N
     /\ l' = l + 1
     /\ ord' = IF Rec[l].e = "cmd" /\ ~dead THEN NextOrd(Rec[l]) ELSE ord
+    /\ pair' = IF Rec[l].e = "final" /\ Rec[l].side = "a" THEN <<Rec[l]>> ELSE pair
     /\ LET e == Rec[l] IN
        IF e.e = "reset" THEN
             /\ cs' = {InitState(SeqRange(e.keys), e.cfg.policy, e.cfg.L, e.cfg.limit, e.obs)}
             /\ dead' = FALSE /\ hist' = e.h /\ UNCHANGED <<viol, cov, noted>>
+       ELSE IF e.e = "final" THEN
+            \* C19: side b is side a's program with every quiet bit flipped; the items left behind must be the same
+            IF e.side = "b" /\ pair # <<>> /\ pair[1].pair = e.pair /\ pair[1].state # e.state THEN
+                /\ viol' = Append(viol, [line |-> l, hist |-> hist, tags |-> {"C19"}, rule |-> "quiet.variant.changed.the.stored.items",
+                                         rules |-> {}, op |-> "", key |-> "", now |-> 0])
+                /\ UNCHANGED <<cs, dead, cov, hist, noted>>
+            ELSE cov' = Count(cov, "pair.final") /\ UNCHANGED <<cs, dead, viol, hist, noted>>
        ELSE IF dead THEN UNCHANGED <<cs, dead, viol, cov, hist, noted>>
        ELSE IF e.e = "tick" THEN cs' = TickAll(cs, e.to) /\ UNCHANGED <<dead, viol, cov, hist, noted>>
        ELSE IF e.e = "stray" \/ ~OrderOK(e) THEN
